@@ -279,6 +279,9 @@ Definition pipe_out {A} (p : list A) (x : A) : A := last p x.          (* L = 0:
 Definition pipe_step {A} (p : list A) (x : A) : list A :=
   match p with [] => [] | _ => x :: removelast p end.
 
+(* read enable: the read-latency registers sit under ENIF(en) and hold their contents while en = 0 *)
+Definition pipe_step_en {A} (en : bool) (p : list A) (x : A) : list A := if en then pipe_step p x else p.
+
 Fixpoint pipe_run {A} (p : list A) (xs : list A) : list A :=
   match xs with
   | [] => []
